@@ -116,6 +116,79 @@ def rot(k):
     return (c, l, t, r, b)
 
 
+# ---- exotic states (round 6): only key equality matters, so every exotic state is carried into Coq as a reserved
+# integer. Tokens in the case dicts: ints (themselves), or one of the names below. NaN != NaN: every OCCURRENCE of
+# 'nan' is a fresh float object and gets a fresh reserved integer, so it can never be looked up - exactly what the
+# unchanged library does with a NaN read from a float array (inside a table the rotations of a key share the object,
+# and share the reserved integer).
+XBASE = 10 ** 12
+XTOK = {'inf': (XBASE + 1, float('inf')), '-inf': (XBASE + 2, float('-inf')), 'complex': (XBASE + 3, 4 + 1j),
+        'complex2': (XBASE + 4, -2j), 'str': (XBASE + 5, 'x'), 'str4': (XBASE + 6, '4'), 'None': (XBASE + 7, None),
+        'half': (XBASE + 8, 0.5), 'f1.5': (XBASE + 9, 1.5), 'big': (2 ** 70, 2 ** 70), 'True': (1, True)}
+
+
+class _XMap:
+    """token -> Python value (for the real call) and -> reserved integer (for Coq), deterministic per case"""
+    def __init__(self):
+        self.nan_ids = {}
+        self.count = 0
+
+    def value(self, tok, floaty=False):
+        if tok == 'nan':
+            v = float('nan')
+            self.count += 1
+            self.nan_ids[id(v)] = XBASE + 100 + self.count
+            self._keep = getattr(self, '_keep', []) + [v]      # keep the object alive: ids stay unique
+            return v
+        if isinstance(tok, str):
+            return XTOK[tok][1]
+        return float(tok) if floaty else int(tok)
+
+    def code_of_value(self, x):
+        """reserved integer of a state read back from rule_table"""
+        if isinstance(x, float) and x != x:
+            return self.nan_ids.get(id(x), XBASE + 99)
+        for name, (code, val) in XTOK.items():
+            if type(val) is type(x) and val == x and name != 'True':
+                return code
+        if isinstance(x, (bool, np.bool_)):
+            return int(x)
+        if isinstance(x, (int, np.integer)) or (isinstance(x, (float, np.floating)) and x == int(x)):
+            return int(x)
+        if isinstance(x, complex) and x.imag == 0 and x.real == int(x.real):
+            return int(x.real)
+        return XBASE + 98
+
+
+def _xcodes(case):
+    """the same traversal as run_impl, tokens -> reserved integers (items first, then queries / grid)"""
+    cnt = [0]
+
+    def code(tok):
+        if tok == 'nan':
+            cnt[0] += 1
+            return XBASE + 100 + cnt[0]
+        return XTOK[tok][0] if isinstance(tok, str) else int(tok)
+    items = [[[code(t) for t in k], v] for k, v in case['items']]
+    if 'queries' in case:
+        rest = [[[code(t) for t in row] for row in q] for q in case['queries']]
+    else:
+        rest = [[code(t) for t in row] for row in case['g']]
+    return items, rest
+
+
+def _xblock(vals, form):
+    if form == 'list':
+        return vals
+    if form == 'object':
+        a = np.empty((3, 3), dtype=object)
+        for i in range(3):
+            for j in range(3):
+                a[i, j] = vals[i][j]
+        return a
+    return np.array(vals, dtype={'float64': np.float64, 'float32': np.float32, 'complex128': np.complex128}[form])
+
+
 def _unscale(v, scale, as_float):
     """the real state carried as the integer v = state * scale (scale 4: quarter-integral floats, exact in binary);
     an integral state is handed over as int or as float (2.0 == 2 and hash alike: same dict key)"""
@@ -254,6 +327,38 @@ def run_impl(c):
                                 codes.append(_code(rule, n, (1, 1), 1))
             return [_items(rule.rule_table), codes]
         return list(call_impl(go, timeout=60))
+    if op == 'absentx':
+        def go():
+            import warnings
+            xm = _XMap()
+            floaty = c['form'] in ('float64', 'float32')
+            d = {}
+            for k, v in c['items']:
+                d[tuple(xm.value(t) for t in k)] = v
+            rule = cpl.CTRBLRule(d, add_rotations=c['add_rot'])
+            tbl = [[[xm.code_of_value(x) for x in k], int(v)] for k, v in rule.rule_table.items()]
+            answers = []
+            with warnings.catch_warnings():
+                warnings.simplefilter('ignore')
+                for q in c['queries']:
+                    arr = _xblock([[xm.value(t, floaty) for t in row] for row in q], c['form'])
+                    answers.append(list(call_impl(lambda: int(rule(arr, (1, 1), 1)))))
+            return [tbl, answers]
+        return list(call_impl(go, timeout=60))
+    if op == 'absentgrid':
+        def go():
+            import warnings
+            xm = _XMap()
+            d = {}
+            for k, v in c['items']:
+                d[tuple(xm.value(t) for t in k)] = v
+            rule = cpl.CTRBLRule(d, add_rotations=c['add_rot'])
+            g = np.array([[[xm.value(t, True) for t in row] for row in c['g']]], dtype=np.float64)
+            with warnings.catch_warnings():
+                warnings.simplefilter('ignore')
+                out = cpl.evolve2d(g, timesteps=2, apply_rule=rule, r=1, neighbourhood='von Neumann')
+            return [[int(x) for x in row] for row in np.asarray(out[1]).tolist()]
+        return list(call_impl(go, timeout=60))
     if op == 'userx':
         def go():
             sc = c['scale']
@@ -344,6 +449,14 @@ def to_coq(c, obs):
         edits = list(c['edits']) + ([[k, -1] for k, _ in c['items']] if c.get('clear') else [])
         return '(CAlias %s %s %s %s %s %s)' % (ctable(c['items']), cbool(c['add_rot']), cnat(c['ns']), ctable(edits),
                                               ctable(tbl), '[' + '; '.join(_pack(ch) for ch in chunks) + ']')
+    if op == 'absentx':
+        items, qs_ = _xcodes(c)
+        tbl, answers = ([], [['exc', 'OtherError']] * len(c['queries'])) if bad else obs[1]
+        qs = '[' + '; '.join('(%s, %s)' % (cgrid(n), cres(a, cz)) for n, a in zip(qs_, answers)) + ']'
+        return '(CUserQ %s %s %s %s)' % (ctable(items), cbool(c['add_rot']), ctable(tbl), qs)
+    if op == 'absentgrid':
+        items, g = _xcodes(c)
+        return '(CUserGrid %s %s %s %s)' % (ctable(items), cbool(c['add_rot']), cgrid(g), cres(obs, cgrid))
     if op == 'userx':
         tbl, answers = ([], [['exc', 'OtherError']] * len(c['queries'])) if bad else obs[1]
         qs = '[' + '; '.join('(%s, %s)' % (cgrid(n), cres(a, cz)) for n, a in zip(c['queries'], answers)) + ']'
@@ -367,7 +480,7 @@ def nontrivial(c, obs):
         return any(d <= 8 for d in obs[1])
     if op in ('user', 'alias'):
         return any(d <= 8 for d in obs[1][1])
-    if op in ('userq', 'userx'):
+    if op in ('userq', 'userx', 'absentx'):
         return any(a[0] == 'ok' for a in obs[1][1])
     return True
 
@@ -513,6 +626,52 @@ def generate(rng, tier):
         yield {'kind': 'usertable/%s/evolve2d' % ('fractional' if scale > 1 else 'negative'), 'op': 'usergrid',
                'scale': scale, 'items': items, 'add_rot': i % 4 == 1,
                'g': [[rng.choice(S) for _ in range(C)] for _ in range(R)], 'memoize': i % 5 == 4}
+    # ---- ABSENT (and present) combinations whose states are inf / -inf / nan / complex / str / None / huge ints /
+    #      fractions: the property names the exception class - an absent combination raises ValueError, nothing else
+    classes = [('inf', ['inf'], ['float64', 'float32', 'object', 'list']),
+               ('-inf', ['-inf', 'inf'], ['float64', 'float32', 'object', 'list']),
+               ('nan', ['nan'], ['float64', 'float32', 'object', 'list']),
+               ('complex', ['complex', 'complex2'], ['object', 'list', 'complex128']),
+               ('str', ['str', 'str4'], ['object', 'list']),
+               ('None', ['None', 'True'], ['object', 'list']),
+               ('bigint', ['big'], ['object', 'list', 'float64']),
+               ('fraction', ['half', 'f1.5'], ['float64', 'float32', 'object', 'list'])]
+    na_ = 12 if tier == 'quick' else 120
+    for name, toks, forms in classes:
+        for i in range(na_):
+            form = forms[i % len(forms)]
+            pool = [0, 1, 2, 3, 4] + toks * 2
+            items = {}
+            for _ in range(rng.randint(1, 6)):
+                # exotic states may be KEY states too (legal: any hashable); nan keys can never be hit
+                k = tuple(rng.choice(pool) if rng.random() < 0.5 else rng.randrange(5) for _ in range(5))
+                items[k] = rng.randrange(9)
+            items = [[list(k), v] for k, v in items.items()]
+            qs = []
+            for j in range(8):
+                u = rng.random()
+                base = list(rng.choice(_rot_class(tuple(rng.choice(items)[0]))))
+                if u < 0.35:
+                    k = base                                         # present (unless it holds a nan)
+                elif u < 0.8:
+                    k = base
+                    k[rng.randrange(5)] = rng.choice(toks)           # (mostly) absent because of the exotic state
+                else:
+                    k = [rng.choice(pool) for _ in range(5)]
+                cc, t, r, b, l = k
+                qs.append([[rng.randrange(5), t, rng.randrange(5)], [l, cc, r], [rng.randrange(5), b, rng.randrange(5)]])
+            yield {'kind': 'absent/%s/%s' % (name, form), 'op': 'absentx', 'items': items, 'add_rot': i % 2 == 0,
+                   'queries': qs, 'form': form}
+    # ... and through evolve2d on float grids holding inf / -inf / nan / fractional cells
+    for i in range(16 if tier == 'quick' else 120):
+        S = [0, 1] + rng.choice([['inf'], ['-inf'], ['inf', '-inf'], ['half'], ['nan', 'inf'], ['nan']])
+        Sk = [x for x in S if x != 'nan']
+        total = i % 2 == 0
+        items = [[list(k), rng.choice([0, 1])] for k in itertools.product(Sk, repeat=5) if total or rng.random() < 0.85]
+        rng.shuffle(items)
+        R, C = rng.randint(1, 4), rng.randint(1, 4)
+        yield {'kind': 'absent/evolve2d/' + '+'.join(str(x) for x in S[2:]), 'op': 'absentgrid', 'items': items,
+               'add_rot': i % 4 == 1, 'g': [[rng.choice(S) for _ in range(C)] for _ in range(R)]}
     # ---- marker keys: five pairwise distinct states pin each rotation down as a permutation of positions
     for i, perm in enumerate([(0, 1, 2, 3, 4), (4, 3, 2, 1, 0), (2, 0, 4, 1, 3), (1, 2, 3, 4, 0)]):
         for add_rot in (True, False):
@@ -596,6 +755,20 @@ def shrink(c):
         items = c['items']
         for i in range(len(items)):
             yield dict(c, items=items[:i] + items[i + 1:])
+    if op == 'absentx':
+        if len(c['queries']) > 1:
+            for i in range(len(c['queries'])):
+                yield dict(c, queries=[c['queries'][i]])
+        items = c['items']
+        if len(items) > 1:
+            for i in range(len(items)):
+                yield dict(c, items=items[:i] + items[i + 1:])
+    if op == 'absentgrid':
+        g = c['g']
+        if len(g) > 1:
+            yield dict(c, g=g[:-1])
+        if len(g[0]) > 1:
+            yield dict(c, g=[row[:-1] for row in g])
     if op == 'userx':
         if len(c['queries']) > 1:
             for i in range(len(c['queries'])):
